@@ -165,15 +165,26 @@ impl MergedTree {
     /// Tries to resolve any conflicts, resolving any conflicts that can be
     /// automatically resolved and leaving the rest unresolved.
     pub async fn resolve(self) -> BackendResult<Self> {
-        let merged = merge_trees(&self.store, self.tree_ids).await?;
-        // If the result can be resolved, then `merge_trees()` above would have returned
-        // a resolved merge. However, that function will always preserve the arity of
-        // conflicts it cannot resolve. So we simplify the conflict again
-        // here to possibly reduce a complex conflict to a simpler one.
-        let (simplified_labels, simplified) = if merged.is_resolved() {
-            (ConflictLabels::unlabeled(), merged)
-        } else {
-            self.labels.simplify_with(&merged)
+        let mut tree_ids = self.tree_ids;
+        let mut labels = self.labels;
+        let (simplified_labels, simplified) = loop {
+            let merged = merge_trees(&self.store, tree_ids).await?;
+            // If the result can be resolved, then `merge_trees()` above would have returned
+            // a resolved merge. However, that function will always preserve the arity of
+            // conflicts it cannot resolve. So we simplify the conflict again
+            // here to possibly reduce a complex conflict to a simpler one.
+            if merged.is_resolved() {
+                break (ConflictLabels::unlabeled(), merged);
+            }
+            let (simplified_labels, simplified) = labels.simplify_with(&merged);
+            if simplified.num_sides() == merged.num_sides() {
+                break (simplified_labels, simplified);
+            }
+            // The simplification can cancel the sides that kept a file/directory conflict
+            // from being merged recursively, which enables further automatic resolution,
+            // so merge the simplified trees again.
+            tree_ids = simplified;
+            labels = simplified_labels;
         };
         // If debug assertions are enabled, check that the merge was idempotent. In
         // particular, that this last simplification doesn't enable further automatic
